@@ -404,6 +404,10 @@ class ManifestFile:
                     openpgp_data += line
                 # skip header lines up to the empty line
                 if line.strip():
+                    if (line.startswith('-----')
+                            and line.rstrip().endswith('-----')):
+                        raise ManifestSyntaxError(
+                            f'Unexpected OpenPGP header: {line}')
                     continue
                 state = ManifestState.SIGNED_DATA
             elif state == ManifestState.SIGNED_DATA:
